@@ -339,11 +339,18 @@ def run(ctx):
     for kw in api_cases:
         clk = bc.ClockType('c0', **kw)
         ll = rng.choice([None, 0, 1, 15, 2 ** 63])
-        envd = {'e_int': rng.choice([0, -1, -(2 ** 63), 2 ** 64 - 1]), 'e_str': rng.choice(['', 'q"', '\\', 'é漢', 'x\\"y'])}
+        envd = {'e_int': rng.choice([0, -1, -(2 ** 63), 2 ** 64 - 1]), 'e_str': rng.choice(['', 'q"', '\\', 'é漢', 'x\\"y', 'cr\rx', 'ff\fx', 'ls\u2028x'])}
         tu = rng.choice([None, uuidp.UUID(int=rng.getrandbits(128))])
-        enum = bc.SignedEnumerationFieldType(64, mappings={
+        # labels with every character Python's str.splitlines() treats as a line boundary (a template filter that splits
+        # text into lines must not touch what is inside a string literal), quotes, backslashes, tabs
+        tricky = rng.sample(['cr\rlf', 'ff\fvt\x0b', 'nel\x85', 'ls\u2028ps\u2029', 'fs\x1cgs\x1drs\x1e', 'tab\tx', 'two\nlines',
+                             'sp  ace', 'q"\r"', '\\\r'], 3)
+        mp = {
             'min "q"': bc.EnumerationFieldTypeMapping({bc.EnumerationFieldTypeMappingRange(-(2 ** 63), -(2 ** 63))}),
-            'back\\slash': bc.EnumerationFieldTypeMapping({bc.EnumerationFieldTypeMappingRange(-5, 2 ** 63 - 1), bc.EnumerationFieldTypeMappingRange(0, 0)})})
+            'back\\slash': bc.EnumerationFieldTypeMapping({bc.EnumerationFieldTypeMappingRange(-5, 2 ** 63 - 1), bc.EnumerationFieldTypeMappingRange(0, 0)})}
+        for ti, tl in enumerate(tricky):
+            mp[tl] = bc.EnumerationFieldTypeMapping({bc.EnumerationFieldTypeMappingRange(100 + ti, 100 + ti)})
+        enum = bc.SignedEnumerationFieldType(64, mappings=mp)
         payload = bc.StructureFieldType(1, {'x': bc.StructureFieldTypeMember(enum)})
         cfg = api_config(clk, {'log_level': ll} if ll is not None else {}, envd, tu, payload)
         text = api_metadata(cfg)
@@ -371,7 +378,8 @@ def run(ctx):
         c.eq('env.e_str', eb.get('e_str'), tsdl.Str(envd['e_str']))
         en = ev.types['fields'].fields[0].type
         c.eq('enum entries', sorted(en.entries) if isinstance(en, tsdl.Enum) else None,
-             sorted([('min "q"', -(2 ** 63), -(2 ** 63)), ('back\\slash', -5, 2 ** 63 - 1), ('back\\slash', 0, 0)]))
+             sorted([('min "q"', -(2 ** 63), -(2 ** 63)), ('back\\slash', -5, 2 ** 63 - 1), ('back\\slash', 0, 0)] +
+                    [(tl, 100 + ti, 100 + ti) for ti, tl in enumerate(tricky)]))
         total_attrs += c.n
         report(ctx, c, replay, seen)
     # ---- 3. replay of the refutation witnesses
